@@ -268,6 +268,37 @@ def run(ctx):
 
     tm['sequences'] = round(time.time() - t0, 1)
     t0 = time.time()
+    # ---------------- alias sweep: composites with an argument-returning child in first / middle / last position ----------------
+    sweep, sweep_rej = [], 0
+    for t in P.alias_prone_trees(rnd):
+        try:
+            e = P.entry_of(t)
+            if not np.array_equal(e["base"].astype(np.complex128), T.dense(t)):
+                sweep_rej += 1
+                continue
+            e["snaps"] = [S.snap(a) for a in e["arrays"]]
+            sweep.append(e)
+        except Exception:
+            sweep_rej += 1
+    sweep_runs = 0
+    for e in sweep:
+        for layout in ("C", "F", "strided"):
+            for name in ("matmat", "matvec", "rmatmat", "to_dense", "diag"):
+                if name in ("to_dense", "diag") and layout != "C":
+                    continue
+                r = S.run_sequence([name], pool, rnd, force=e, layout=layout)
+                sweep_runs += 1
+                alias_obs += r["alias_obs"]
+                for st, cls in r["errors"].items():
+                    err_hist[f"sweep:{name}:{cls}"] += 1
+                for v in r["violations"]:
+                    mism.append(dict(oracle_fail=True, part="alias-sweep", operand_layout=layout, op=name, **v))
+    evaluations += sweep_runs
+    extra.update(alias_sweep_operators=len(sweep), alias_sweep_runs=sweep_runs, alias_sweep_rejected=sweep_rej,
+                 alias_sweep_kinds=dict(collections.Counter(e["tree"]["k"] for e in sweep)),
+                 exceptions_by_op=dict(err_hist.most_common(40)))
+    tm['alias_sweep'] = round(time.time() - t0, 1)
+    t0 = time.time()
     # ---------------- aliasing signatures against the Coq functions ----------------
     failing, uniq, err = G.eval_alias_in_coq(f"s{ctx.seed}", alias_obs)
     if err:
